@@ -45,6 +45,9 @@ FIXED = [
  ("F29","C12","2bb9d12","cr/cc with constraints='center' and extrapolation='na': NaN constraint made every value NaN"),
  ("F31","C05,C06","558fbc8","a list-valued (context) factor raised AttributeError/ValueError for output='sparse' only"),
  ("F30","C05","203a5c8","C(B) over a single-level column raised ValueError under output='narwhals'"),
+ ("F32","C18","d0da9eb","a model spec pickled in one process and restored in another (other hash seed) could not look up or subset its terms: cached Term hash travelled with the pickle"),
+ ("F33","C04","7b233a7","'a + x | a:x': the later part's spec recorded no encoder state for factors already encoded for an earlier part; used alone on other data it re-inferred the levels"),
+ ("F34","C04,C18,C13","bfed1e9","transform state keyed by environment-dependent (randomly suffixed) aliases of backtick-quoted names: state not found on reuse, and distinct names sanitizing alike shared one entry"),
  ("F27","C05,C08","8c2b710","C(B) on a categorical column lost the declared category order under the narwhals materializer"),
 ]
 findings = [{"id": i, "property": p, "status": "open", "mechanism": m, "what": w} for i, p, m, w in OPEN]
